@@ -23,12 +23,12 @@ pub fn def() -> PropDef {
 }
 
 pub fn hash_cfg() -> impl Strategy<Value = DbCfg> {
-	(proptest::collection::vec(hash_col(), 1..=3), prop_oneof![5 => Just(false), 1 => Just(true)]).prop_map(
-		|(mut cols, zero_salt)| {
+	(proptest::collection::vec(hash_col(), 1..=3), prop_oneof![5 => Just(false), 1 => Just(true)], prop_oneof![2 => Just(0x1200u16), 1 => Just(0xffffu16), 1 => Just(0u16)]).prop_map(
+		|(mut cols, zero_salt, page)| {
 			if zero_salt {
 				for (i, c) in cols.iter_mut().enumerate() {
 					if c.uniform {
-						c.keyset = KeySet::Crafted { page: 0x1200 + i as u16 };
+						c.keyset = KeySet::Crafted { page: if page == 0x1200 { page + i as u16 } else { page } };
 					}
 				}
 			}
